@@ -105,6 +105,19 @@ def evaluate(d):
         return Case(d, ["C01 dom %s %s %s %s %s" % (slist(w), slist(a), slist(b), ilist(ia), ilist(ib))],
                     [bits([got])], orc, tag="dom/n=%d/len=%d" % (len(w), len(ia)), nontrivial=(a != b))
     if k == "vals":
+        if d.get("mut"):
+            # values assigned from a caller-owned mutable container that the caller changes afterwards:
+            # what is read back must still be what was assigned (the fitness keeps no alias to the container)
+            buf = [float(x) for x in a]
+            fa = F()
+            fa.values = buf
+            early_clone = copy.deepcopy(fa)
+            for i in range(len(buf)):
+                buf[i] = buf[i] + 7.0
+            buf.append(1.0)
+            if exact(fa.values) != tuple(a) or exact(early_clone.values) != tuple(a) or exact(fa.wvalues) != wa:
+                return Case(d, [], [], oracle="values %r read back after the caller changed the list it had assigned from "
+                            "(assigned %r): the fitness aliases the caller's container" % (fa.values, a), tag="vals/alias")
         back = fa.values
         cl = copy.deepcopy(fa)
         out = "%s %s %s %s %s" % (slist(exact(fa.wvalues)), slist(exact(back)), bits([fa.valid]),
@@ -224,6 +237,7 @@ def generate(tier, rng, mult):
         for w in wsets:
             for a in tuples:
                 yield {"k": "vals", "w": list(w), "a": a}
+                yield {"k": "vals", "w": list(w), "a": a, "mut": True}
                 for b in tuples:
                     yield {"k": "cmp", "w": list(w), "a": a, "b": b}
                     if n < 3 or rng.random() < 0.2:
@@ -260,7 +274,7 @@ def generate(tier, rng, mult):
             sl = rng.choice(slices_for(n))
             yield {"k": "dom", "w": w, "a": a, "b": b, "slice": sl, "explicit": rng.random() < 0.5}
         elif kind < 0.8:
-            yield {"k": "vals", "w": w, "a": a}
+            yield {"k": "vals", "w": w, "a": a, "mut": rng.random() < 0.5}
         elif kind < 0.9:
             ops = []
             for _ in range(rng.randint(1, 8)):
